@@ -78,6 +78,16 @@ elif cmd == "addset":
             e["what"] = f"{sig} - first witness: {keys[0]}"[:300]
         print(f"{sig}: {len(have)} -> {len(allk)} witnesses")
     save(d)
+elif cmd == "reset":
+    # kf.py reset <PID> : forget every status=known entry (and witness set) of a property, e.g. after its case keys changed
+    pid = sys.argv[2]
+    for e in list(d["findings"]):
+        if e["property"] == pid and e["status"] == "known":
+            ws = e.get("witness_set")
+            if ws and os.path.exists(os.path.join(V, ws)):
+                os.unlink(os.path.join(V, ws))
+            d["findings"].remove(e)
+    save(d)
 elif cmd == "list":
     for e in d["findings"]:
         if len(sys.argv) > 2 and e["property"] != sys.argv[2]:
